@@ -44,6 +44,14 @@ theorem legacy_overlapped_stream_relent :
       s.pc 2 = .bGot 0 ∧ (s.ws 0).synced = false := by
   refine ⟨_, rfl, ?_, ?_⟩ <;> decide
 
+/-- **a borrow cut short by `KeyboardInterrupt`** (raised from `on_log` in the middle of a unary response, or anywhere
+else) went back to the pool like any other -/
+theorem legacy_interrupt_relent :
+    ∃ s, (ts (Cfg.legacy 1 4)).run
+        (spawnGet 1 0 ++ [.use 1 .interrupt { interrupted := true }] ++ putBack 1 0 false ++ reuse 2 0) = some s ∧
+      s.pc 2 = .bGot 0 ∧ (s.ws 0).synced = false := by
+  refine ⟨_, rfl, ?_, ?_⟩ <;> decide
+
 /-- the repaired rule refuses all three runs: the same events are not a run of the repaired model -/
 example : (ts (Cfg.ofGen 0 4)).accepts (spawnGet 1 0 ++ putBack 1 0 true) = false := by decide
 example : (ts (Cfg.ofGen 1 4)).accepts
